@@ -227,6 +227,43 @@ def deep_resolve(fn_node: ast.AST, e: ast.AST, max_depth: int = 5) -> ast.AST:
     return ast.fix_missing_locations(T().visit(_copy.deepcopy(e)))
 
 
+LAZY_CALLS = {"filter", "map", "zip", "iter", "reversed", "enumerate", "itertools.chain", "chain", "itertools.islice", "islice", "itertools.takewhile", "takewhile", "itertools.dropwhile", "dropwhile"}
+
+
+def lazy_reuse(fn_node: ast.AST) -> List[Tuple[str, ast.AST, str]]:
+    """Locals bound (once) to a one-shot iterator - a generator expression or filter/map/zip/... - and then used
+    more than once, or inside a loop / comprehension: after the first use the iterator is exhausted.
+    -> [(name, binding expr, how it is re-used)]"""
+    out = []
+    defs = Defs(fn_node)
+    pm = parent_map(fn_node)
+    for name, bs in defs.binds.items():
+        if len(bs) != 1 or bs[0][0] != "assign" or bs[0][1] is None:
+            continue
+        v = bs[0][1]
+        lazy = isinstance(v, ast.GeneratorExp) or (isinstance(v, ast.Call) and (dotted(v.func) or "") in LAZY_CALLS)
+        if not lazy:
+            continue
+        uses = [n for n in ast.walk(fn_node) if isinstance(n, ast.Name) and n.id == name and isinstance(n.ctx, ast.Load)]
+        in_loop = []
+        for u in uses:
+            cur = u
+            while id(cur) in pm:
+                par = pm[id(cur)]
+                if isinstance(par, (ast.For, ast.While)) and any(cur is b or any(cur is x for x in ast.walk(b)) for b in par.body):
+                    in_loop.append(u)
+                    break
+                if isinstance(par, (ast.ListComp, ast.SetComp, ast.DictComp, ast.GeneratorExp)) and not any(cur is g.iter for g in par.generators[:1]):
+                    in_loop.append(u)
+                    break
+                cur = par
+        if in_loop:
+            out.append((name, v, "used inside a loop (e.g. `x in %s` on every iteration)" % name))
+        elif len(uses) > 1:
+            out.append((name, v, "used %d times" % len(uses)))
+    return out
+
+
 def names_in(e: ast.AST) -> Set[str]:
     return {n.id for n in ast.walk(e) if isinstance(n, ast.Name)}
 
